@@ -21,7 +21,7 @@ pub static C04_DIRECT: Scenario = Scenario {
     run: run_c04,
     quick_runs: 6000,
     thorough_runs: 300_000,
-    rule: "one run = the real active-peer set of one endpoint driven directly with 2-5 real QUIC connections (either direction) to 1-2 remote identities in a seeded order of 3-12 operations (add, remove, remove_with_stable_id = exit of that connection's handler incl. after it was replaced or removed, subscribe, peers) checked operation by operation against a reference map: listing, exact event sequence per subscription, return value of add, and which connections are closed; distinct = distinct operation sequence signature; non-trivial = the sequence contains a replacement, a rejected add or a late handler exit",
+    rule: "one run = the real active-peer set of one endpoint driven directly with 2-5 real QUIC connections (either direction) to 1-2 remote identities in a seeded order of 3-12 operations (add, remove, remove_with_stable_id = exit of that connection's handler incl. after it was replaced or removed, subscribe, peers), in half of the runs with simulated preemption (operations of 'another thread' run at the scheduling points just before the active-peer lock is taken, hook H7), checked against a reference map: listing, exact event sequence per subscription, return value of add, and which connections are closed; distinct = distinct operation sequence signature; non-trivial = the sequence contains a replacement, a rejected add or a late handler exit",
     real: &["anemo ActivePeers (add / remove / remove_with_stable_id / subscribe / peers) and tie-break", "anemo Endpoint + Connection, quinn, rustls (real connections)"],
     stubbed: &["connection manager event loop and request handlers (operations are issued by the harness in their place)", "UDP socket, clock (fabric, virtual time)"],
 };
@@ -70,6 +70,191 @@ fn inbound(c: &DirectConnection) -> bool {
     c.origin() == ConnectionOrigin::Inbound
 }
 
+#[derive(Clone, Debug)]
+enum Op {
+    Add(usize),
+    Remove(usize, DisconnectReason),
+    HandlerExit(usize, DisconnectReason),
+    Subscribe,
+    Peers,
+}
+
+struct Direct {
+    own: PeerId,
+    peers: DirectPeers,
+    conns: Vec<DirectConnection>,
+    // reference model
+    map: BTreeMap<PeerId, usize>,
+    closed: BTreeSet<usize>,
+    added: BTreeSet<usize>,
+    registered: BTreeSet<usize>,
+    model_events: Vec<PeerEvent>,
+    replacements: Vec<usize>, // index into model_events of each replacement's LostPeer
+    subs: Vec<(Subscription, usize)>,
+    ops: Vec<String>,
+    pending: std::collections::VecDeque<Op>,
+    interesting: bool,
+    preempted: u64,
+}
+
+type Shared = std::rc::Rc<std::cell::RefCell<Direct>>;
+
+/// Execute one operation against the real active-peer set and the reference model. The real call
+/// is made without holding a borrow of the shared state: a scheduling point inside it (hook H7,
+/// just before the lock is taken) may run a pending operation of "another thread" right there.
+fn exec(st: &Shared, w: &World, op: Op, nested: bool) {
+    let (peers, own) = {
+        let s = st.borrow();
+        (s.peers.clone(), s.own)
+    };
+    let tag = if nested { "~" } else { "" };
+    match op {
+        Op::Add(k) => {
+            let c = st.borrow().conns[k].clone();
+            let p = c.peer_id();
+            let got = peers.add(&own, &c);
+            let mut s = st.borrow_mut();
+            let expect = match s.map.get(&p).copied() {
+                None => {
+                    s.map.insert(p, k);
+                    s.model_events.push(PeerEvent::NewPeer(p));
+                    true
+                }
+                Some(e) => {
+                    s.interesting = true;
+                    if tie_break_drop_existing(&own.0, &p.0, inbound(&s.conns[e]), inbound(&s.conns[k])) {
+                        s.closed.insert(e);
+                        s.map.insert(p, k);
+                        let at = s.model_events.len();
+                        s.replacements.push(at);
+                        s.model_events.push(PeerEvent::LostPeer(p, DisconnectReason::Requested));
+                        s.model_events.push(PeerEvent::NewPeer(p));
+                        true
+                    } else {
+                        s.closed.insert(k);
+                        false
+                    }
+                }
+            };
+            if expect {
+                s.registered.insert(k);
+            }
+            let desc = format!("{tag}add(c{k}:{}{})={got}", w.pname(&p), if inbound(&c) { "<" } else { ">" });
+            s.ops.push(desc.clone());
+            if got != expect {
+                w.violate("add-return-value", "add", format!("{desc}: model says {expect}; ops so far {:?}", s.ops));
+            }
+        }
+        Op::Remove(k, reason) => {
+            let p = st.borrow().conns[k].peer_id();
+            peers.remove(&p, reason.clone());
+            let mut s = st.borrow_mut();
+            if let Some(e) = s.map.remove(&p) {
+                s.closed.insert(e);
+                s.model_events.push(PeerEvent::LostPeer(p, reason));
+            }
+            let d = format!("{tag}remove({})", w.pname(&p));
+            s.ops.push(d);
+        }
+        Op::HandlerExit(k, reason) => {
+            let (p, sid) = {
+                let s = st.borrow();
+                (s.conns[k].peer_id(), s.conns[k].stable_id())
+            };
+            peers.remove_with_stable_id(p, sid, reason.clone());
+            let mut s = st.borrow_mut();
+            if s.map.get(&p) != Some(&k) {
+                s.interesting = true;
+            }
+            if s.map.get(&p) == Some(&k) {
+                s.map.remove(&p);
+                s.closed.insert(k);
+                s.model_events.push(PeerEvent::LostPeer(p, reason));
+            }
+            s.registered.remove(&k);
+            let d = format!("{tag}handler-exit(c{k}:{})", w.pname(&p));
+            s.ops.push(d);
+        }
+        Op::Subscribe => {
+            let (rx, snap) = peers.subscribe();
+            let mut s = st.borrow_mut();
+            let listed: BTreeSet<PeerId> = snap.iter().copied().collect();
+            let model_listed: BTreeSet<PeerId> = s.map.keys().copied().collect();
+            s.ops.push(format!("{tag}subscribe"));
+            if listed != model_listed {
+                w.violate("snapshot-differs-from-listing", "subscribe", format!("after {:?}: the snapshot returned with a subscription lists {:?}, the listing is {:?}", s.ops, listed.iter().map(|p| w.pname(p)).collect::<Vec<_>>(), model_listed.iter().map(|p| w.pname(p)).collect::<Vec<_>>()));
+            }
+            let from = s.model_events.len();
+            s.subs.push((Subscription::from_parts(rx, snap), from));
+        }
+        Op::Peers => {
+            let listed: BTreeSet<PeerId> = peers.peers().into_iter().collect();
+            let mut s = st.borrow_mut();
+            s.ops.push(format!("{tag}peers"));
+            let model_listed: BTreeSet<PeerId> = s.map.keys().copied().collect();
+            if listed != model_listed {
+                w.violate("listing-differs-from-model", "peers", format!("after {:?}: peers() = {:?}, model = {:?}", s.ops, listed.iter().map(|p| w.pname(p)).collect::<Vec<_>>(), model_listed.iter().map(|p| w.pname(p)).collect::<Vec<_>>()));
+            }
+        }
+    }
+}
+
+/// Invariants compared with the model once the state is quiescent (after a top-level operation).
+fn compare(st: &Shared, w: &World) {
+    let peers = st.borrow().peers.clone();
+    let listed_vec = peers.peers();
+    let mut s = st.borrow_mut();
+    let s = &mut *s;
+    let listed: BTreeSet<PeerId> = listed_vec.iter().copied().collect();
+    let model_listed: BTreeSet<PeerId> = s.map.keys().copied().collect();
+    let ops = s.ops.clone();
+    if listed != model_listed || listed_vec.len() != listed.len() {
+        w.violate("listing-differs-from-model", "peers", format!("after {ops:?}: peers() = {:?}, model = {:?}", listed.iter().map(|p| w.pname(p)).collect::<Vec<_>>(), model_listed.iter().map(|p| w.pname(p)).collect::<Vec<_>>()));
+    }
+    for (p, k) in &s.map {
+        if peers.get_stable_id(p) != Some(s.conns[*k].stable_id()) {
+            w.violate("wrong-connection-registered", "map", format!("after {ops:?}: the connection registered for {} is not c{k}", w.pname(p)));
+        }
+    }
+    for (k, c) in s.conns.iter().enumerate() {
+        let is_closed = c.close_reason().is_some();
+        if is_closed != s.closed.contains(&k) {
+            w.violate(if is_closed { "live-connection-closed" } else { "unregistered-connection-left-open" }, "connections", format!("after {ops:?}: c{k} closed = {is_closed}, model closed = {}", s.closed.contains(&k)));
+        }
+    }
+    let now = w.now_ns();
+    let kind = |e: &PeerEvent| match e {
+        PeerEvent::NewPeer(p) => (true, *p),
+        PeerEvent::LostPeer(p, _) => (false, *p),
+    };
+    for (i, (sub, from)) in s.subs.iter_mut().enumerate() {
+        sub.drain(now);
+        if let Some(e) = &sub.alternation_error {
+            w.violate("event-alternation", "subscription", format!("after {ops:?}: subscription {i}: {e}"));
+        }
+        if sub.listed != model_listed {
+            w.violate("events-do-not-reproduce-listing", "subscription", format!("after {ops:?}: subscription {i} (snapshot {} peers + {} events) reconstructs {:?}, listing is {:?}", sub.snapshot.len(), sub.history.len(), sub.listed.iter().map(|p| w.pname(p)).collect::<Vec<_>>(), model_listed.iter().map(|p| w.pname(p)).collect::<Vec<_>>()));
+        }
+        // the event sequence equals the model's, by kind and peer; a replacement may be announced
+        // as Lost+New or not at all; nothing else may be published
+        let got: Vec<(bool, PeerId)> = sub.history.iter().map(|e| kind(&e.ev)).collect();
+        let want: Vec<(bool, PeerId)> = s.model_events[*from..].iter().map(kind).collect();
+        let mut want_min = Vec::new();
+        let mut idx = *from;
+        while idx < s.model_events.len() {
+            if s.replacements.contains(&idx) {
+                idx += 2;
+                continue;
+            }
+            want_min.push(kind(&s.model_events[idx]));
+            idx += 1;
+        }
+        if got != want && got != want_min {
+            w.violate(if got.len() > want.len() { "spurious-event" } else { "event-sequence-differs-from-model" }, "subscription", format!("after {ops:?}: subscription {i} saw {got:?}, the reference model {want:?} (true = NewPeer)"));
+        }
+    }
+}
+
 fn run_c04(input: RunInput) -> ScenFuture {
     Box::pin(async move {
         let w = World::new(&input, LinkCfg::clean(200, 2_000));
@@ -78,8 +263,10 @@ fn run_c04(input: RunInput) -> ScenFuture {
         let n_peers = w.param("peers", 1, 2) as usize;
         let n_conns = w.param("connections", 2, 5) as usize;
         let n_ops = w.param("ops", 3, 12) as usize;
+        // simulated preemption: at every scheduling point (just before the active-peer lock is
+        // taken, hook H7) a pending operation of "another thread" may run
+        let preempt = w.flag("preemption", 0.5);
         let mut r = w.rng("wl:direct");
-        // connections, from the point of view of `own`
         let mut conns: Vec<DirectConnection> = Vec::new();
         let mut remote_handles: Vec<DirectConnection> = Vec::new();
         for _ in 0..n_conns {
@@ -97,138 +284,124 @@ fn run_c04(input: RunInput) -> ScenFuture {
                 }
             }
         }
-        let peers = DirectPeers::new(4096);
-        // reference model
-        let mut map: BTreeMap<PeerId, usize> = BTreeMap::new();
-        let mut closed: BTreeSet<usize> = BTreeSet::new();
-        let mut added: BTreeSet<usize> = BTreeSet::new();
-        let mut registered: BTreeSet<usize> = BTreeSet::new();
-        let mut model_events: Vec<PeerEvent> = Vec::new();
-        let mut subs: Vec<(Subscription, usize)> = Vec::new(); // (subscription, index into model_events at subscribe time)
+        let st: Shared = std::rc::Rc::new(std::cell::RefCell::new(Direct {
+            own: own.id,
+            peers: DirectPeers::new(4096),
+            conns,
+            map: BTreeMap::new(),
+            closed: BTreeSet::new(),
+            added: BTreeSet::new(),
+            registered: BTreeSet::new(),
+            model_events: Vec::new(),
+            replacements: Vec::new(),
+            subs: Vec::new(),
+            ops: Vec::new(),
+            pending: Default::default(),
+            interesting: false,
+            preempted: 0,
+        }));
         let reasons = [DisconnectReason::Requested, DisconnectReason::TimedOut, DisconnectReason::ApplicationClosed, DisconnectReason::LocallyClosed, DisconnectReason::ConnectionClosed];
-        let mut ops = Vec::new();
-        let mut interesting = false;
-        for step in 0..n_ops {
-            let k = r.gen_range(0..conns.len());
-            let p = conns[k].peer_id();
-            let choice = r.gen_range(0..100);
-            let model_before = model_events.len();
-            let mut seen_before: Vec<usize> = subs.iter().map(|(s, _)| s.history.len()).collect();
-            let desc;
-            if choice < 40 && !added.contains(&k) {
-                added.insert(k);
-                let got = peers.add(&own.id, &conns[k]);
-                let expect = match map.get(&p).copied() {
-                    None => {
-                        map.insert(p, k);
-                        model_events.push(PeerEvent::NewPeer(p));
-                        true
+        if preempt {
+            let (st2, w2) = (st.clone(), w.clone());
+            let mut pr = w.rng("wl:preempt");
+            anemo::verif::set_sched_hook(Some(Box::new(move |_tag| {
+                // (scheduling points reached while the harness itself inspects the state - a
+                // borrow is held - are not preemption opportunities)
+                let take = pr.gen_bool(0.5);
+                let op = match st2.try_borrow_mut() {
+                    Ok(mut s) if take => {
+                        let op = s.pending.pop_front();
+                        if op.is_some() {
+                            s.preempted += 1;
+                        }
+                        op
                     }
-                    Some(e) => {
-                        interesting = true;
-                        if tie_break_drop_existing(&own.id.0, &p.0, inbound(&conns[e]), inbound(&conns[k])) {
-                            closed.insert(e);
-                            map.insert(p, k);
-                            model_events.push(PeerEvent::LostPeer(p, DisconnectReason::Requested));
-                            model_events.push(PeerEvent::NewPeer(p));
-                            true
-                        } else {
-                            closed.insert(k);
-                            false
+                    _ => None,
+                };
+                if let Some(op) = op {
+                    exec(&st2, &w2, op, true);
+                }
+            })));
+        }
+        let mut gen_op = |st: &Shared, r: &mut rand::rngs::StdRng| -> Option<Op> {
+            let s = st.borrow();
+            let k = r.gen_range(0..s.conns.len());
+            let choice = r.gen_range(0..100);
+            // (an operation queued for "the other thread" counts as issued)
+            if choice < 40 && !s.added.contains(&k) {
+                drop(s);
+                st.borrow_mut().added.insert(k);
+                Some(Op::Add(k))
+            } else if choice < 55 {
+                Some(Op::Remove(k, reasons[r.gen_range(0..reasons.len())].clone()))
+            } else if choice < 85 && s.added.contains(&k) {
+                // the request handler of connection k exits (possibly long after k was replaced or
+                // removed; a no-op in the model if k was never registered)
+                Some(Op::HandlerExit(k, reasons[r.gen_range(0..reasons.len())].clone()))
+            } else if choice < 93 {
+                Some(Op::Subscribe)
+            } else {
+                Some(Op::Peers)
+            }
+        };
+        for _ in 0..n_ops {
+            if preempt {
+                for _ in 0..r.gen_range(0..3) {
+                    if let Some(op) = gen_op(&st, &mut r) {
+                        // a handler exit can only be queued for a connection whose add already ran
+                        let ok = match &op {
+                            Op::HandlerExit(k, _) => st.borrow().registered.contains(k),
+                            _ => true,
+                        };
+                        if ok {
+                            st.borrow_mut().pending.push_back(op);
+                        } else if let Op::Add(k) = op {
+                            st.borrow_mut().added.remove(&k);
                         }
                     }
+                }
+            }
+            if let Some(op) = gen_op(&st, &mut r) {
+                let ok = match &op {
+                    Op::HandlerExit(k, _) => st.borrow().registered.contains(k),
+                    _ => true,
                 };
-                if expect {
-                    registered.insert(k);
-                }
-                desc = format!("add(c{k}:{}{})={got}", w.pname(&p), if inbound(&conns[k]) { "<" } else { ">" });
-                w.check(got == expect, "add-return-value", "add", || format!("step {step} {desc}: model says {expect}; ops so far {ops:?}"));
-            } else if choice < 55 {
-                let reason = reasons[r.gen_range(0..reasons.len())].clone();
-                peers.remove(&p, reason.clone());
-                if let Some(e) = map.remove(&p) {
-                    closed.insert(e);
-                    model_events.push(PeerEvent::LostPeer(p, reason));
-                }
-                desc = format!("remove({})", w.pname(&p));
-            } else if choice < 85 && registered.contains(&k) {
-                // the request handler of connection k exits (possibly long after k was replaced / removed)
-                let reason = reasons[r.gen_range(0..reasons.len())].clone();
-                if map.get(&p) != Some(&k) {
-                    interesting = true;
-                }
-                peers.remove_with_stable_id(p, conns[k].stable_id(), reason.clone());
-                if map.get(&p) == Some(&k) {
-                    map.remove(&p);
-                    closed.insert(k);
-                    model_events.push(PeerEvent::LostPeer(p, reason));
-                }
-                registered.remove(&k);
-                desc = format!("handler-exit(c{k}:{})", w.pname(&p));
-            } else if choice < 93 {
-                let (rx, snap) = peers.subscribe();
-                subs.push((Subscription::from_parts(rx, snap), model_events.len()));
-                seen_before.push(0);
-                desc = "subscribe".to_string();
-            } else {
-                desc = "peers".to_string();
-            }
-            ops.push(desc.clone());
-            w.event(desc);
-            // ---- compare with the model after every operation ----
-            let listed: BTreeSet<PeerId> = peers.peers().into_iter().collect();
-            let model_listed: BTreeSet<PeerId> = map.keys().copied().collect();
-            if listed != model_listed || peers.peers().len() != listed.len() {
-                w.violate("listing-differs-from-model", "peers", format!("after {ops:?}: peers() = {:?}, model = {:?}", listed.iter().map(|p| w.pname(p)).collect::<Vec<_>>(), model_listed.iter().map(|p| w.pname(p)).collect::<Vec<_>>()));
-            }
-            for (p, k) in &map {
-                if peers.get_stable_id(p) != Some(conns[*k].stable_id()) {
-                    w.violate("wrong-connection-registered", "map", format!("after {ops:?}: the connection registered for {} is not c{k}", w.pname(p)));
+                if ok {
+                    exec(&st, &w, op, false);
                 }
             }
-            for (k, c) in conns.iter().enumerate() {
-                let is_closed = c.close_reason().is_some();
-                if is_closed != closed.contains(&k) {
-                    w.violate(
-                        if is_closed { "live-connection-closed" } else { "unregistered-connection-left-open" },
-                        "connections",
-                        format!("after {ops:?}: c{k} closed = {is_closed}, model closed = {}", closed.contains(&k)),
-                    );
+            // whatever "the other thread" did not get to run inside a window runs now
+            loop {
+                let op = st.borrow_mut().pending.pop_front();
+                match op {
+                    Some(Op::HandlerExit(k, reason)) => {
+                        if st.borrow().registered.contains(&k) {
+                            exec(&st, &w, Op::HandlerExit(k, reason), false);
+                        }
+                    }
+                    Some(op) => exec(&st, &w, op, false),
+                    None => break,
                 }
             }
-            let now = w.now_ns();
-            for (i, (s, from)) in subs.iter_mut().enumerate() {
-                s.drain(now);
-                // events published by this operation, compared by kind and peer (the property does
-                // not fix the reason, and a replacement may be announced as Lost+New or not at all)
-                let kind = |e: &PeerEvent| match e {
-                    PeerEvent::NewPeer(p) => (true, *p),
-                    PeerEvent::LostPeer(p, _) => (false, *p),
-                };
-                let got: Vec<(bool, PeerId)> = s.history[s.history.len() - (s.history.len() - seen_before[i].min(s.history.len()))..].iter().map(|e| kind(&e.ev)).collect();
-                let want: Vec<(bool, PeerId)> = model_events[model_before.max(*from)..].iter().map(kind).collect();
-                let replacement = want.len() == 2 && !want[0].0 && want[1].0 && want[0].1 == want[1].1;
-                let ok = got == want || (replacement && got.is_empty());
-                if !ok {
-                    w.violate(if want.is_empty() { "spurious-event" } else { "event-sequence-differs-from-model" }, "subscription", format!("after {ops:?}: the last operation published {got:?} to subscription {i}, the reference model {want:?} (true = NewPeer)"));
-                }
-                if let Some(e) = &s.alternation_error {
-                    w.violate("event-alternation", "subscription", e.clone());
-                }
-                if s.listed != model_listed {
-                    w.violate("events-do-not-reproduce-listing", "subscription", format!("after {ops:?}: subscription {i} reconstructs {:?}", s.listed.iter().map(|p| w.pname(p)).collect::<Vec<_>>()));
-                }
-            }
+            compare(&st, &w);
             if w.violated() {
                 break;
             }
         }
-        if interesting {
+        anemo::verif::set_sched_hook(None);
+        let s = st.borrow();
+        for o in &s.ops {
+            w.event(o.clone());
+        }
+        if s.interesting || s.preempted > 0 {
             w.mark_overlap();
         }
-        w.sample("ops", json!({"connections": conns.iter().map(|c| format!("{}{}", w.pname(&c.peer_id()), if inbound(c) { "<" } else { ">" })).collect::<Vec<_>>(), "ops": ops}));
+        w.probe_n("operations-run-inside-a-preemption-window", s.preempted);
+        w.sample("ops", json!({"preemption": preempt, "connections": s.conns.iter().map(|c| format!("{}{}", w.pname(&c.peer_id()), if inbound(c) { "<" } else { ">" })).collect::<Vec<_>>(), "ops": s.ops}));
+        drop(s);
         let out = w.finish();
         drop(remote_handles);
+        anemo::verif::set_sched_hook(None);
         own.ep.close();
         for rm in &remotes {
             rm.ep.close();
